@@ -71,4 +71,54 @@ theorem tie_chunk_slice (cs : List Nat) (p : Nat) (hp : p < cs.length) :
   rw [e]
   simp only [Int.toNat_natCast, Nat.zero_add]
 
+/-! ### `RowAppendableArray` -/
+section RowAppend
+open C19
+
+/-- **the property on the translated code**: start from `RowAppendableArray(cap)`, feed any non-empty sequence of rows
+through the regenerated `append_row` (threading the state the code itself returns), then the regenerated `to_array`:
+no step raises and the result is the concatenation of the rows — whatever `np.empty` left in the buffer. -/
+def runAppends (g cap : Int) : Option (List Int) × Int → List (List Int) → Option (Option (List Int) × Int)
+  | st, [] => some st
+  | (d, c), r :: rs => match Gen.row_append g cap d c r with
+    | none => none
+    | some (d', c') => runAppends g cap (some d', c') rs
+
+theorem aux_append_cap {α} (s : RowApp α) (next : List α) : (s.appendRow next).cap = s.cap := by
+  unfold RowApp.appendRow; simp only []; split <;> rfl
+
+theorem run_eq_model (g : Int) (rows : List (List Int)) : ∀ (s : RowApp Int) (sofar : List Int), s.Inv sofar →
+    runAppends g (s.cap : Int) (s.data.map (rdCells g), (s.cursor : Int)) rows
+      = some ((((rows.foldl RowApp.appendRow s).data).map (rdCells g)), ((rows.foldl RowApp.appendRow s).cursor : Int)) := by
+  induction rows with
+  | nil => intro s sofar _; simp [runAppends]
+  | cons r rs ih =>
+    intro s sofar h
+    obtain ⟨d, hd⟩ := aux_append_data s r
+    have hb : (s.appendRow r).buf = d := by simp [RowApp.buf, hd]
+    have hstep := tie_row_append g s r h.2.1
+    have hnext := ih (s.appendRow r) (sofar ++ r) (aux_append_inv s sofar r h)
+    rw [aux_append_cap, hd] at hnext
+    simp only [runAppends, hstep, hb, List.foldl_cons]
+    simpa using hnext
+
+/-- **C19 on the translated code** -/
+theorem code_row_appends_concat (g : Int) (cap : Nat) (rows : List (List Int)) (hne : rows ≠ []) :
+    ∃ d c, runAppends g (cap : Int) (none, 0) rows = some (some d, c) ∧ Gen.row_to_array d c = rows.flatten := by
+  have hinit : (RowApp.new cap : RowApp Int).Inv [] := by simp [RowApp.Inv, RowApp.new]
+  have hrun := run_eq_model g rows (RowApp.new cap) [] hinit
+  have hcat := append_eq_concat cap rows hne
+  have hinv := aux_foldl_inv rows (RowApp.new cap) [] hinit
+  generalize rows.foldl RowApp.appendRow (RowApp.new cap) = fin at hrun hcat hinv
+  cases hdat : fin.data with
+  | none => simp [RowApp.toArray, hdat] at hcat
+  | some d =>
+    refine ⟨rdCells g d, (fin.cursor : Int), ?_, ?_⟩
+    · simpa [RowApp.new, hdat] using hrun
+    · rw [tie_row_to_array]
+      simp only [RowApp.toArray, hdat, Option.map_some, Option.some.injEq] at hcat
+      simp [hcat, rdCells, Function.comp_def]
+
+end RowAppend
+
 end PyresampleModel.Tie
